@@ -219,7 +219,7 @@ def crosscheck_function(rep, con, n_inputs, seed):
                         bad = f'path {s.path}: executor value {s.outcome[1]!r} vs CPython {nat[1]!r}'
                         break
                     continue
-                if '[exit]' in s.path:
+                if '[exit]' in s.path or getattr(s.ctx, 'underdetermined', False):
                     # loop-cut path: result is constrained by the invariant only -> consistency
                     if smt.quick_sat(s.hyps + b + [eq], 5000) == 'unsat':
                         bad = f'path {s.path}: CPython result {nat[1]!r} inconsistent with the loop invariant'
